@@ -19,11 +19,13 @@ impl Scn {
 }
 pub fn robot(obstacle_at: Option<[f32; 3]>) -> KinematicsWithShape { robot_m(obstacle_at, 0.0) }
 /// the same robot with a safety margin to the environment (0 = touch only)
-pub fn robot_m(obstacle_at: Option<[f32; 3]>, margin: f32) -> KinematicsWithShape {
+pub fn robot_m(obstacle_at: Option<[f32; 3]>, margin: f32) -> KinematicsWithShape { robot_l(obstacle_at, margin, -180.0, 180.0) }
+/// ... and with J1 limited to lo..hi degrees (non-wrapping when lo < hi; may reach beyond 180)
+pub fn robot_l(obstacle_at: Option<[f32; 3]>, margin: f32, j1_lo: f64, j1_hi: f64) -> KinematicsWithShape {
     let h = 0.02f32;
     let links = [box_mesh([0.0; 3], [h, h, h], false), box_mesh([0.0; 3], [h, h, h], true), box_mesh([0.0; 3], [h, h, h], false), box_mesh([0.0; 3], [h, h, h], true), box_mesh([0.0; 3], [h, h, h], false), box_mesh([0.0; 3], [h, h, h], true)];
     let env = match obstacle_at { Some(c) => vec![CollisionBody { mesh: box_mesh(c, [0.04, 0.04, 0.04], true), pose: Isometry3::identity() }], None => vec![] };
-    KinematicsWithShape::with_safety(Parameters::irb2400_10(), Constraints::from_degrees([-180.0..=180.0, -180.0..=180.0, -180.0..=180.0, -180.0..=180.0, -180.0..=180.0, -180.0..=180.0], 0.0),
+    KinematicsWithShape::with_safety(Parameters::irb2400_10(), Constraints::from_degrees([j1_lo..=j1_hi, -180.0..=180.0, -180.0..=180.0, -180.0..=180.0, -180.0..=180.0, -180.0..=180.0], 0.0),
         links, box_mesh([0.0, 0.0, -0.2], [0.1, 0.1, 0.05], false), Isometry3::identity(), box_mesh([0.0, 0.0, 0.03], [0.01, 0.01, 0.03], true), Isometry3::from_parts(Translation3::new(0.0, 0.0, 0.06), nalgebra::UnitQuaternion::identity()),
         env, if margin > 0.0 { SafetyDistances { to_environment: margin, to_robot_default: 0.0, special_distances: std::collections::HashMap::new(), mode: CheckMode::FirstCollisionOnly } } else { SafetyDistances::standard(CheckMode::FirstCollisionOnly) })
 }
